@@ -72,4 +72,6 @@ with moded_block (fuel : nat) (l : list stmt) : bool :=
            && postfix_paired l
   end.
 
-Definition well_moded (p : program) : bool := moded_block 2000 p.
+(* (fuel: a program that passes the compiler's 16-bit size check has fewer than 65536 nodes, so its nesting
+   is far below this) *)
+Definition well_moded (p : program) : bool := moded_block (N.to_nat 70000) p.
